@@ -45,14 +45,25 @@ def gen_world(rng, n_minerals=None, regimes=None, allow_pydrex=True, flow_famili
 
 
 def gen_history_ops(rng, world, total=None, n_max=None, update_all_share=0.15,
-                    restart_share=0.0, order="interleaved"):
+                    restart_share=0.0, order="interleaved", t_offset=None):
     """Each mineral gets its own partition of [0, T_m]; the ops of all minerals are
     interleaved by the seeded scheduler (order preserved per mineral)."""
     nm = len(world["minerals"])
+    # time origin: model times far from zero (geodynamic models run at t ~ 1e15 s) with steps
+    # that are short relative to the absolute time; only where the environment stays in its
+    # domain for large tau (autonomous / periodic flows, bounded pathlines)
+    safe = all(
+        (world["paths"][m["path"]]["kind"] in ("static", "circle")
+         and world["flows"][m["flow"]]["family"] in ("const", "periodic", "posdep",
+                                                     "pydrex_simple_shear", "pydrex_cell", "zero"))
+        or world["flows"][m["flow"]]["family"] in ("const", "periodic", "pydrex_simple_shear", "zero")
+        for m in world["minerals"]) and not world.get("regime_fields")
+    t_off = rng.choice([0.0, 0.0, 0.0, 0.0, 3.0, 100.0, 1e4, 1e6]) if (safe and t_offset is None) \
+        else (t_offset or 0.0)
     per = []
     for m in range(nm):
         T = total if total is not None else rng.choice([0.3, 1.0, 1.0, 2.0, 3.0, 6.0])
-        parts = G.partition(rng, 0.0, T, n_max=n_max or rng.choice([3, 6, 12, 20]))
+        parts = G.partition(rng, t_off, t_off + T, n_max=n_max or rng.choice([3, 6, 12, 20]))
         per.append([{"op": "update", "m": m, "t0": a, "t1": b} for a, b in parts])
     ops = []
     cursors = [0] * nm
